@@ -59,7 +59,7 @@ CLAIMED = {
     ),
     "C09": dict(
         category="exploration",
-        text="Three structures. (A) signer-registration batch tree through AggregateSignature::verify: EVERY tree size n<=6 (9 thorough) with EVERY non-empty leaf subset, each with a systematic mutation list (every entry to every other registered party / outsider / stake+1; every stated position to every other position, n, u64::MAX, duplicated, swapped; path nodes flipped, dropped, duplicated, swapped; foreign root) plus sampled n<=40. (B) MKTree/MKProof: every n<=8 (10) with every subset and a fixed mutation set, honest completeness and level-up forgeries for every n<=33, 6k sampled proofs up to n=300 under a 14-rule grammar on the proof's serde view. (C) block-range MKMap of 1..8 trees: master/sub proof mutations, sub-proofs detached, swapped, re-keyed, duplicated, foreign. (D) byte / structure level over 12 fixed committed trees (1-21 leaves): 60k byte-mutated bincode encodings and 120k structure-aware edit lists (the input format of the libFuzzer target fuzz_mkproof, which runs coverage-guided in the thorough tier with the same in-target oracle; its artifacts are judged in-process). Oracle: completeness (proof verifies, contains its selection, survives bytes round trip) and soundness (an object verifying against the committed root vouches, via contains over a probe set of all leaves, injected values and internal nodes, only for committed leaves at their positions/keys). The exhaustive part decides small trees completely; the sampled part reaches MMR peak shapes. Found one exploitable defect (repaired) and three structural findings (listed as known findings).",
+        text="Three structures. (A) signer-registration batch tree through AggregateSignature::verify: EVERY tree size n<=6 (9 thorough) with EVERY non-empty leaf subset, each with a systematic mutation list (every entry to every other registered party / outsider / stake+1; every stated position to every other position, n, u64::MAX, duplicated, swapped; path nodes flipped, dropped, duplicated, swapped; foreign root) plus sampled n<=40. (B) MKTree/MKProof: every n<=8 (10) with every subset and a fixed mutation set, honest completeness and level-up forgeries for every n<=33, 6k sampled proofs up to n=300 under a 14-rule grammar on the proof's serde view. (C) block-range MKMap of 1..8 trees: master/sub proof mutations, sub-proofs detached, swapped, re-keyed, duplicated, foreign. (E) map proofs nested 1..32 levels deep (the decoder's limit), honest and with the innermost proven leaf replaced, through to_bytes/from_bytes. (D) byte / structure level over 12 fixed committed trees (1-21 leaves): 60k byte-mutated bincode encodings and 120k structure-aware edit lists (the input format of the libFuzzer target fuzz_mkproof, which runs coverage-guided in the thorough tier with the same in-target oracle; its artifacts are judged in-process). Oracle: completeness (proof verifies, contains its selection, survives bytes round trip) and soundness (an object verifying against the committed root vouches, via contains over a probe set of all leaves, injected values and internal nodes, only for committed leaves at their positions/keys). The exhaustive part decides small trees completely; the sampled part reaches MMR peak shapes. Found one exploitable defect (repaired) and three structural findings (listed as known findings).",
         note="Hash functions are assumed collision resistant; structural manipulations only. 'Vouches' is measured over the probe set. Known findings (no leaf/node/bagging domain separation in MKTree, size not bound) are matched by exact key and witnessed on every run; all other classes stay enforced.",
         technique="property-based testing + fuzzing: exhaustive enumeration of small trees x subsets x systematic mutations, proptest mutation grammar, byte- and structure-level libFuzzer target with in-target membership oracle",
         design_ref="DESIGN.md §2 C09",
